@@ -472,16 +472,17 @@ fn run(line: &str) -> String {
             // cell_volumes <dim>: three generators on a line along x in the box [0,2]x[0,3]x[0,5] (unused axes: unit thickness);
             // VolumeIntegral through the integrator, followed by the closed-form measures
             let dim = a.dim();
-            let gens = [DVec3::new(0.3, 1.5, 2.5), DVec3::new(0.9, 1.5, 2.5), DVec3::new(1.7, 1.5, 2.5)];
-            let width = DVec3::new(2., 3., 5.);
+            let sc = a.f();
+            let gens = [DVec3::new(0.3, 1.5, 2.5) * sc, DVec3::new(0.9, 1.5, 2.5) * sc, DVec3::new(1.7, 1.5, 2.5) * sc];
+            let width = DVec3::new(2., 3., 5.) * sc;
             let vi = VoronoiIntegrator::build(&gens, None, DVec3::ZERO, width, dim, false);
             let vols = vi.compute_cell_integrals::<meshless_voronoi::integrals::VolumeIntegral>();
             let cross = match dim {
                 Dimensionality::OneD => 1.,
-                Dimensionality::TwoD => 3.,
-                Dimensionality::ThreeD => 15.,
+                Dimensionality::TwoD => 3. * sc,
+                Dimensionality::ThreeD => 15. * sc * sc,
             };
-            let exact = [0.6 * cross, (1.3 - 0.6) * cross, (2.0 - 1.3) * cross];
+            let exact = [0.6 * sc * cross, (1.3 - 0.6) * sc * cross, (2.0 - 1.3) * sc * cross];
             let mut out = String::new();
             for v in &vols {
                 out += &format!("{:e} ", v.volume);
